@@ -187,15 +187,19 @@ fn check_err(st: &mut Stats, who: &str, s: &[u8], e: &clap::Error, expect: &[Err
 
 macro_rules! ranged_i64_family {
     ($fname:ident, $t:ty) => {
-        fn $fname(st: &mut Stats, lo: Bound<i64>, hi: Bound<i64>, base_full: bool, inputs: &[Vec<u8>], real_parse: bool) {
+        fn $fname(st: &mut Stats, lo: Bound<i64>, hi: Bound<i64>, base_full: bool, inputs: &[Vec<u8>], real_parse: bool, compose: usize) {
             let who = stringify!($t);
             let tmin = <$t>::MIN as i128;
             let tmax = <$t>::MAX as i128;
             let parser = match catch(|| {
-                if base_full {
-                    RangedI64ValueParser::<$t>::new().range((lo, hi))
-                } else {
-                    clap::value_parser!($t).range((lo, hi))
+                let base = if base_full { RangedI64ValueParser::<$t>::new() } else { clap::value_parser!($t) };
+                // the same range declared in one call or narrowed side by side (an open side keeps
+                // what was declared before)
+                match compose {
+                    1 => base.range((lo, Bound::Unbounded)).range((Bound::Unbounded, hi)),
+                    2 => base.range((Bound::Unbounded, hi)).range((lo, Bound::Unbounded)),
+                    3 => base.range((lo, hi)).range(..),
+                    _ => base.range((lo, hi)),
                 }
             }) {
                 Ok(p) => p,
@@ -283,8 +287,16 @@ ranged_i64_family!(ranged_u8, u8);
 ranged_i64_family!(ranged_u16, u16);
 ranged_i64_family!(ranged_u32, u32);
 
-fn ranged_u64(st: &mut Stats, lo: Bound<u64>, hi: Bound<u64>, inputs: &[Vec<u8>]) {
-    let parser = match catch(|| RangedU64ValueParser::<u64>::new().range((lo, hi))) {
+fn ranged_u64(st: &mut Stats, lo: Bound<u64>, hi: Bound<u64>, inputs: &[Vec<u8>], compose: usize) {
+    let parser = match catch(|| {
+        let base = if compose >= 4 { clap::value_parser!(u64) } else { RangedU64ValueParser::<u64>::new() };
+        match compose % 4 {
+            1 => base.range((lo, Bound::Unbounded)).range((Bound::Unbounded, hi)),
+            2 => base.range((Bound::Unbounded, hi)).range((lo, Bound::Unbounded)),
+            3 => base.range((lo, hi)).range(..),
+            _ => base.range((lo, hi)),
+        }
+    }) {
         Ok(p) => p,
         Err(_) => {
             st.count("ranged.config_rejected");
@@ -359,7 +371,7 @@ fn inputs_for(tmin: i128, tmax: i128, lo: Bound<i64>, hi: Bound<i64>) -> Vec<Vec
 }
 
 pub fn exhaustive(shard: usize, nshards: usize, st: &mut Stats) {
-    type F = fn(&mut Stats, Bound<i64>, Bound<i64>, bool, &[Vec<u8>], bool);
+    type F = fn(&mut Stats, Bound<i64>, Bound<i64>, bool, &[Vec<u8>], bool, usize);
     let fams: [(&str, i128, i128, F); 7] = [
         ("i8", i8::MIN as i128, i8::MAX as i128, ranged_i8),
         ("i16", i16::MIN as i128, i16::MAX as i128, ranged_i16),
@@ -380,7 +392,13 @@ pub fn exhaustive(shard: usize, nshards: usize, st: &mut Stats) {
                 let inputs = inputs_for(tmin, tmax, rc.lo, rc.hi);
                 st.nontrivial(hash_str(&format!("{}{}{:?}{:?}", name, wide, rc.lo, rc.hi)));
                 st.add("exhaustive.triples", inputs.len() as u64);
-                f(st, rc.lo, rc.hi, wide, &inputs, idx % 7 == 0);
+                f(st, rc.lo, rc.hi, wide, &inputs, idx % 7 == 0, 0);
+                // and declared in two narrowing steps
+                let compose = 1 + (idx / nshards) % 3;
+                st.nontrivial(hash_str(&format!("{}{}{:?}{:?}{}", name, wide, rc.lo, rc.hi, compose)));
+                st.add("exhaustive.triples", inputs.len() as u64);
+                st.count("ranged.composed-ranges");
+                f(st, rc.lo, rc.hi, wide, &inputs, idx % 5 == 0, compose);
             }
         }
     }
@@ -425,7 +443,12 @@ pub fn exhaustive(shard: usize, nshards: usize, st: &mut Stats) {
                     inputs.push(b"\xff1".to_vec());
                     st.nontrivial(hash_str(&format!("u64{:?}{:?}", lo, hi)));
                     st.add("exhaustive.triples", inputs.len() as u64);
-                    ranged_u64(st, lo, hi, &inputs);
+                    ranged_u64(st, lo, hi, &inputs, 0);
+                    let compose = 1 + (idx / nshards) % 7;
+                    st.nontrivial(hash_str(&format!("u64{:?}{:?}{}", lo, hi, compose)));
+                    st.add("exhaustive.triples", inputs.len() as u64);
+                    st.count("ranged.composed-ranges");
+                    ranged_u64(st, lo, hi, &inputs, compose);
                 }
             }
         }
@@ -1023,11 +1046,15 @@ fn random_ranged(rng: &mut Rng, st: &mut Stats) {
         inputs.push((hi as i128 + d).to_string().into_bytes());
     }
     st.nontrivial(mix(lo as u64, hi as u64));
-    ranged_i64(st, Bound::Included(lo), Bound::Included(hi), true, &inputs, true);
-    ranged_i32(st, Bound::Included(lo), Bound::Excluded(hi), true, &inputs, false);
+    let compose = rng.below(4);
+    ranged_i64(st, Bound::Included(lo), Bound::Included(hi), true, &inputs, true, compose);
+    ranged_i32(st, Bound::Included(lo), Bound::Excluded(hi), true, &inputs, false, (compose + 1) % 4);
     let ulo = lo.unsigned_abs();
     let uhi = hi.unsigned_abs().max(ulo);
-    ranged_u64(st, Bound::Included(ulo.min(uhi)), Bound::Included(uhi), &inputs);
+    for v in [0u64, ulo / 2, ulo.saturating_sub(1), ulo, uhi, uhi.saturating_add(1)] {
+        inputs.push(v.to_string().into_bytes());
+    }
+    ranged_u64(st, Bound::Included(ulo.min(uhi)), Bound::Included(uhi), &inputs, rng.below(8));
 }
 
 pub fn case(seed: u64, st: &mut Stats) {
